@@ -1108,6 +1108,10 @@ rrul_fill_yly(echs_instant_t *restrict tgt, size_t nti, rrulsp_t rr)
 					if (UNLIKELY(echs_instant_lt_p(x, proto))) {
 						continue;
 					}
+					if (UNLIKELY(res >= nti)) {
+						/* that's all they asked for */
+						goto fin;
+					}
 					/* attach scale and convert back to greg */
 					x = echs_instant_attach_scale(x, srcsca);
 
@@ -1280,6 +1284,10 @@ rrul_fill_mly(echs_instant_t *restrict tgt, size_t nti, rrulsp_t rr)
 					if (UNLIKELY(echs_instant_lt_p(x, proto))) {
 						continue;
 					}
+					if (UNLIKELY(res >= nti)) {
+						/* that's all they asked for */
+						goto fin;
+					}
 					/* attach scale and convert back to greg */
 					x = echs_instant_attach_scale(x, srcsca);
 
@@ -1428,6 +1436,9 @@ rrul_fill_wly(echs_instant_t *restrict tgt, size_t nti, rrulsp_t rr)
 				} else if (!(m_mask & (1U << this_m))) {
 					/* skip the whole month */
 					goto skip;
+				} else if (UNLIKELY(res >= nti)) {
+					/* that's all they asked for */
+					goto fin;
 				}
 				/* attach scale and convert back to greg */
 				x = echs_instant_attach_scale(x, srcsca);
@@ -1577,6 +1588,9 @@ rrul_fill_dly(echs_instant_t *restrict tgt, size_t nti, rrulsp_t rr)
 			if (UNLIKELY(echs_instant_lt_p(x, proto))) {
 				continue;
 			} else if (UNLIKELY(echs_instant_lt_p(rr->until, x))) {
+				goto fin;
+			} else if (UNLIKELY(res >= nti)) {
+				/* that's all they asked for */
 				goto fin;
 			}
 			/* attach scale and convert back to greg */
@@ -1760,6 +1774,9 @@ rrul_fill_Hly(echs_instant_t *restrict tgt, size_t nti, rrulsp_t rr)
 				continue;
 			} else if (UNLIKELY(echs_instant_lt_p(rr->until, x))) {
 				goto fin;
+			} else if (UNLIKELY(res >= nti)) {
+				/* that's all they asked for */
+				goto fin;
 			}
 			tgt[res++] = x;
 		}
@@ -1941,6 +1958,9 @@ rrul_fill_Mly(echs_instant_t *restrict tgt, size_t nti, rrulsp_t rr)
 			if (UNLIKELY(echs_instant_lt_p(x, proto))) {
 				continue;
 			} else if (UNLIKELY(echs_instant_lt_p(rr->until, x))) {
+				goto fin;
+			} else if (UNLIKELY(res >= nti)) {
+				/* that's all they asked for */
 				goto fin;
 			}
 			tgt[res++] = x;
